@@ -418,6 +418,10 @@ class Machine:
             return Struct(name, [])
         if k == "other":
             if "promoted[" in c[1]:
+                base, suffix = c[1].split("::promoted[", 1)
+                f = self.index.get(normalize_callee(base) + "::promoted[" + suffix)
+                if f is not None:
+                    return self.run(f, [])
                 for name, f in self.funcs.items():
                     if "promoted[" in name and c[1].endswith(name):
                         return self.run(f, [])
@@ -458,6 +462,8 @@ class Machine:
                     return len(v)
                 if isinstance(v, RStr) and v.text is not None:
                     return len(v.text.encode())
+                if hasattr(v, "length"):
+                    return v.length
                 if isinstance(v, Ptr):
                     inner = v.load()
                     if isinstance(inner, (SliceRef, VecObj)):
@@ -534,7 +540,18 @@ class Machine:
             return {"Eq": ea == eb, "Ne": ea != eb, "Lt": ea < eb, "Le": ea <= eb, "Gt": ea > eb, "Ge": ea >= eb}[op]
         if op in ("AddWithOverflow", "SubWithOverflow", "MulWithOverflow"):
             if sym:
-                raise Unsupported("symbolic checked arithmetic")
+                ty = fn.local_types.get(dest.local, "(usize, bool)")
+                mt = re.match(r"\((\w+), bool\)", ty)
+                tname = mt.group(1) if mt else "usize"
+                bits = INT_BITS.get(tname, 64)
+                if tname.startswith("i") or op == "MulWithOverflow":
+                    raise Unsupported("symbolic signed/multiplying checked arithmetic")
+                ea, eb = _z(a), _z(b)
+                if op == "AddWithOverflow":
+                    r = ea + eb
+                    return Tuple([r, r > z3.IntVal((1 << bits) - 1)])
+                r = ea - eb
+                return Tuple([r, r < 0])
             ty = fn.local_types.get(dest.local, "(usize, bool)")
             m = re.match(r"\((\w+), bool\)", ty)
             bits = INT_BITS.get(m.group(1) if m else "usize", 64)
@@ -624,7 +641,7 @@ def type_key(t):
     m = re.match(r"^(&?)([\w:]+)(<.*>)?$", t)
     if m:
         base = m.group(2).split("::")[-1]
-        if base in ("Box", "Vec", "Option", "Result") and m.group(3):
+        if base in ("Box", "Vec", "Option", "Result", "From") and m.group(3):
             inner = m.group(3)[1:-1]
             return "%s%s<%s>" % (m.group(1), base, ",".join(type_key(x) for x in _split_generic_args(inner)))
         return m.group(1) + base
